@@ -5,3 +5,22 @@ class References:
       pass
     else:
       super()._process_not_unique(previous)
+
+  def _substitute_virtual_line(self, previous):
+    super()._substitute_virtual_line(previous)
+    self._adopt_further_placeholder_links()
+
+  def _adopt_further_placeholder_links(self):
+    # paths which specify different overlaps for the same step create a
+    # placeholder link each; a link whose overlap is compatible with several
+    # of them (an unspecified overlap) supports all those paths
+    for other in list(self.from_segment.dovetails):
+      if other is not self and other.virtual and \
+          other.record_type == "L" and \
+          other.is_compatible(self.oriented_from, self.oriented_to,
+                              self.overlap, True):
+        for path in list(other._refs.get("paths", [])):
+          path._update_references(other, self, "links")
+          self._add_reference(path, "paths")
+        other._refs["paths"] = []
+        other.disconnect()
